@@ -1202,8 +1202,6 @@ enum Fed {
 struct Runner {
     ctx: Context,
     ost: OState,
-    /// the oracle state advanced under the reading "function values are looked up by name when called"
-    ost_late: OState,
     prev_structure: String,
     run: CaseRun,
 }
@@ -1215,7 +1213,7 @@ impl Runner {
         run.procs = ctx.verif_c09_bytecode().vm.ffi_callables.clone();
         let ost = OState { globals: vec![], funs: vec![], nfuns: 0, structs: BTreeMap::new(), last: None, builtins: false };
         let prev_structure = structural(&ctx);
-        Runner { ctx, ost_late: ost.clone(), ost, prev_structure, run }
+        Runner { ctx, ost, prev_structure, run }
     }
 
     fn feed(&mut self, input: &Input) -> Fed {
@@ -1260,7 +1258,7 @@ impl Runner {
         // the alternative reading "function values are looked up by name when called" (what the
         // implementation does): used to classify a failure, and run first so that an input that does
         // not terminate within the budget under that reading is never given to the implementation
-        let mut t3 = self.ost_late.clone();
+        let mut t3 = self.ost.clone();
         let late = oracle_input(&mut t3, input, Mode { late_fn_values: true, struct_rev_def: false });
         if late.result == Err(OErr::Budget) {
             run.notes.push("dropped_budget_late_binding".into());
@@ -1370,8 +1368,9 @@ impl Runner {
         if matches!(orun.result, Ok(Expect::Value(_)) | Ok(Expect::Continue)) && !matches!(outcome, ImplOutcome::Error(_)) {
             self.ost = trial;
         }
-        if matches!(late.result, Ok(Expect::Value(_)) | Ok(Expect::Continue)) && !matches!(outcome, ImplOutcome::Error(_)) {
-            self.ost_late = t3;
+        if !run.failures.is_empty() {
+            // the session states of implementation and oracle may differ from here on: end the case
+            return Fed::Panicked;
         }
         if matches!(outcome, ImplOutcome::Error(_)) { Fed::Error } else { Fed::Ok }
     }
